@@ -26,18 +26,26 @@ O_ANY = gramgen.Opts(terms='tok', max_rules=3, shaping=True, templates=True, ign
 
 
 class Counting(ForestVisitor):
-    def __init__(self, single_visit):
+    """bare=True: a *_in method hands back the node itself when there is exactly one to schedule ("returning a node(s) will schedule them")"""
+    LIMIT = 300000
+    def __init__(self, single_visit, bare=False):
         ForestVisitor.__init__(self, single_visit=single_visit)
+        self.bare = bare; self.n = 0
         self.c = {'sym_in': 0, 'sym_out': 0, 'int_in': 0, 'int_out': 0, 'pk_in': 0, 'pk_out': 0, 'tok': 0, 'cycle': 0}
+    def _sched(self, children):
+        self.n += 1
+        if self.n > self.LIMIT: raise OverflowError('walk entered more than %d nodes' % self.LIMIT)
+        lst = list(children)
+        return lst[0] if self.bare and len(lst) == 1 else lst
     def visit_token_node(self, node): self.c['tok'] += 1
     def visit_symbol_node_in(self, node):
-        self.c['sym_in'] += 1; return node.children
+        self.c['sym_in'] += 1; return self._sched(node.children)
     def visit_symbol_node_out(self, node): self.c['sym_out'] += 1
     def visit_intermediate_node_in(self, node):
-        self.c['int_in'] += 1; return node.children
+        self.c['int_in'] += 1; return self._sched(node.children)
     def visit_intermediate_node_out(self, node): self.c['int_out'] += 1
     def visit_packed_node_in(self, node):
-        self.c['pk_in'] += 1; return node.children
+        self.c['pk_in'] += 1; return self._sched(node.children)
     def visit_packed_node_out(self, node): self.c['pk_out'] += 1
     def on_cycle(self, node, path): self.c['cycle'] += 1
 
@@ -118,17 +126,19 @@ def check(case, ctx):
                 raise Violation('parse raised %s' % type(e).__name__, grammar=gtext, text=w, lexer=lx, error=str(e)[:300])
             # ---- walks terminate, events balance, cycles reported
             cycles_seen = []
-            for sv in (False, True):
-                v = Counting(sv)
+            for sv, bare in ((False, False), (True, False), (False, True)):
+                v = Counting(sv, bare)
                 try:
                     v.visit(root)
+                except OverflowError as e:
+                    raise Violation('ForestVisitor walk does not terminate', grammar=gtext, text=w, lexer=lx, single_visit=sv, returns_bare_nodes=bare, error=str(e))
                 except Exception as e:
-                    raise Violation('ForestVisitor walk raised %s' % type(e).__name__, grammar=gtext, text=w, lexer=lx, single_visit=sv, error=str(e)[:300])
+                    raise Violation('ForestVisitor walk raised %s' % type(e).__name__, grammar=gtext, text=w, lexer=lx, single_visit=sv, returns_bare_nodes=bare, error=str(e)[:300])
                 c = v.c
                 if c['sym_in'] != c['sym_out'] or c['int_in'] != c['int_out'] or c['pk_in'] != c['pk_out']:
-                    raise Violation('visit *_in / *_out events do not balance', grammar=gtext, text=w, lexer=lx, single_visit=sv, counts=c)
+                    raise Violation('visit *_in / *_out events do not balance', grammar=gtext, text=w, lexer=lx, single_visit=sv, returns_bare_nodes=bare, counts=c)
                 cycles_seen.append(c['cycle'])
-            if (cycles_seen[0] > 0) != cyclic_input:
+            if (cycles_seen[0] > 0) != cyclic_input or (cycles_seen[2] > 0) != cyclic_input:
                 raise Violation('on_cycle %s although the input has %s derivations' % ('fired' if cycles_seen[0] else 'did not fire',
                                 'infinitely many' if cyclic_input else 'finitely many'), grammar=gtext, text=w, lexer=lx, on_cycle_calls=cycles_seen)
             try:
